@@ -459,10 +459,24 @@ func Reference(g *rg.G) *Cert {
 			break
 		}
 	}
-	for _, e := range k.Edges() {
-		k.Del(e[0], e[1])
-		if RefIsPlanar(k) {
-			k.Add(e[0], e[1])
+	// chunked passes first (a Kuratowski subgraph is small, most chunks go at
+	// once), then one pass edge by edge: an edge that cannot go now can never
+	// go later, so one single-edge pass leaves an edge-minimal non-planar graph.
+	for chunk := k.M() / 2; chunk >= 1; chunk /= 2 {
+		cur := k.Edges()
+		for i := 0; i < len(cur); i += chunk {
+			j := i + chunk
+			if j > len(cur) {
+				j = len(cur)
+			}
+			for _, e := range cur[i:j] {
+				k.Del(e[0], e[1])
+			}
+			if RefIsPlanar(k) {
+				for _, e := range cur[i:j] {
+					k.Add(e[0], e[1])
+				}
+			}
 		}
 	}
 	return &Cert{Kur: k.Edges()}
